@@ -30,8 +30,14 @@ def _scenario(draw, tier):
     kind = draw(st.sampled_from(["gibbs", "gibbs", "metropolis", "pca", "hmc", "hmc", "ensemble"]))
     if kind in ("gibbs", "metropolis"):
         cfg = draw(lc.sampler_config(kinds=[kind], bounds="never", max_d=3, extreme=True, gibbs_limits=False))
+        if cfg.get("arg_form") in ("f32_start", "f32_widths"):
+            # float32 inputs make the library compute proposals in float32: "a few units of rounding at the scale of the
+            # limits" would have to be read in float32 units; the tolerances here are stated in double precision
+            cfg.pop("arg_form")
     else:
         cfg = draw(lc.sampler_config(kinds=[kind], bounds="always", max_d=3, extreme=True))
+        if cfg.get("arg_form") in ("f32_start", "f32_widths"):
+            cfg.pop("arg_form")
     ops = []
     for _ in range(draw(st.integers(1, 8))):
         if kind in ("gibbs", "metropolis"):
@@ -308,6 +314,10 @@ def execute(sc):
             hi_ = np.asarray(cfg["bounds"][1], dtype=float)
             wd_ = hi_ - np.asarray(cfg["bounds"][0], dtype=float)
             st_ = inputs["start"]
+            if not isinstance(st_, np.ndarray):
+                st_ = inputs["start"] = np.array(st_, dtype=float)
+            if not st_.flags.writeable:
+                st_ = inputs["start"] = st_.copy()
             if st_.ndim == 2:
                 st_[int(sc["stray_start"]) % st_.shape[0], 0] = hi_[0] + 0.5 * wd_[0]
             else:
@@ -394,7 +404,7 @@ def execute(sc):
                     stats["fault_crash_restart"] += 1
                 elif name == "scribble":
                     st_arr = h.inputs["start"]
-                    if isinstance(st_arr, np.ndarray) and h.cfg.get("bounds") is not None:
+                    if isinstance(st_arr, np.ndarray) and st_arr.flags.writeable and h.cfg.get("bounds") is not None:
                         hi_ = np.asarray(h.cfg["bounds"][1], dtype=float)
                         wd_ = hi_ - np.asarray(h.cfg["bounds"][0], dtype=float)
                         st_arr[...] = np.broadcast_to(hi_ + 5.0 * wd_ + 1.0, st_arr.shape).astype(st_arr.dtype)
